@@ -21,6 +21,11 @@ Spec == Init /\ [][Next]_vars
 V == IF raw THEN RawValue(ps) ELSE Value(ps)
 AnsiRoundTrip == EmitOkAnsi(V)
 BackslashRoundTripIffNoBackslash == EmitOkBackslash(V) <=> ~(\E i \in 1 .. Len(V) : V[i] = 92)
+\* the printer of the default options keeps every literal but those in which a backslash stands directly before a quote of
+\* the value or before the closing quote (whatever the number of backslashes before it)
+BackslashBeforeQuote(v) == \/ (v # <<>> /\ v[Len(v)] = 92)
+                           \/ \E i \in 1 .. Len(v) - 1 : v[i] = 92 /\ v[i + 1] = 39
+PrinterLaw == PrinterKeeps(V) <=> ~BackslashBeforeQuote(V)
 Emit2 == (ps # <<>> /\ CanClose(ps, st)) =>
            PrintT(<<"REPLAY", ToJson([pieces |-> ps, q |-> st.q, n |-> st.n, raw |-> raw, value |-> V])>>)
 =======================================================================
